@@ -27,7 +27,8 @@ HARNESSES = [
     {"name": "clang", "src": "harness.cpp", "compiler": "clang++-14", "flags": ["-O1"] + _COMMON},
 ]
 
-RULE = ("cctype: every argument in [-1,255] x 14 functions; cwctype: 0..0x2FF, surrogate/BMP-end/plane-end windows, WEOF; "
+RULE = ("cctype: every argument in [-1,255] x 14 functions; cwctype: 0..0x2FF, surrogate/BMP-end/plane-end windows, WEOF, ~450 Unicode "
+        "characters other libcs/locales classify (white space, digits, letters, case pairs), ASCII class edges + k*2^8/2^16/.. aliases; "
         "cstring/cwchar: ALL strings of length <= L over {a, b, 0x80 (narrow) / -5 (wide)} (quick: L = 4, and 3 for the "
         "two-string ops that also take a count; thorough 5/4), all pairs, all counts 0..len+2, with exact-size and "
         "oversize destinations, elements after the terminator, unterminated arrays where C allows them; raw buffers over "
@@ -65,6 +66,30 @@ CLASS = ["isalnum", "isalpha", "isblank", "iscntrl", "isdigit", "isgraph", "islo
          "isupper", "isxdigit", "tolower", "toupper"]
 WCLASS = ["iswalnum", "iswalpha", "iswblank", "iswcntrl", "iswdigit", "iswgraph", "iswlower", "iswprint", "iswpunct",
           "iswspace", "iswupper", "iswxdigit", "towlower", "towupper"]
+
+
+def _ranges(*rs):
+    out = []
+    for r in rs:
+        out += list(range(r[0], r[1] + 1)) if isinstance(r, tuple) else [r]
+    return out
+
+
+# Wide characters that a Unicode-aware or table-driven implementation (other libcs, other locales) puts into some class
+# or maps to another case, while the "C" locale classifies nothing outside ASCII: Unicode white space, decimal digits of
+# other scripts, Latin-1/Greek/Cyrillic/fullwidth letters and case pairs, compatibility forms, tag characters ...
+UNICODE_CANDIDATES = _ranges(
+    0x85, 0xA0, 0xAA, 0xAD, 0xB2, 0xB5, 0xBA, 0xC0, 0xD7, 0xDF, 0xE0, 0xE9, 0xF7, 0xFF, 0x100, 0x101, 0x130, 0x131, 0x149,
+    0x178, 0x17F, (0x1C4, 0x1CC), 0x2B0, 0x300, 0x37E, 0x386, 0x391, 0x3A9, 0x3B1, 0x3C2, 0x3C9, 0x3F4, 0x410, 0x42F, 0x430,
+    0x44F, 0x531, 0x561, 0x5D0, 0x627, (0x660, 0x669), (0x6F0, 0x6F9), (0x966, 0x96F), (0xE50, 0xE59), 0x10A0, 0x1680,
+    0x180E, 0x1E9E, (0x2000, 0x200F), 0x2028, 0x2029, 0x202F, 0x205F, 0x2060, 0x2070, (0x2080, 0x2089), 0x20AC, 0x2122,
+    0x2126, 0x212A, 0x212B, (0x2160, 0x217F), (0x24B6, 0x24E9), 0x2C00, 0x2C30, (0x3000, 0x3002), 0x3041, 0x30A1, 0x4E00,
+    0xA640, 0xAC00, 0xFB00, 0xFB01, 0xFEFF, (0xFF01, 0xFF5E), 0xFFFD, (0x10400, 0x1044F), (0x1D7CE, 0x1D7FF), 0x1E900,
+    0x1E922, 0x1F600, 0xE0001, (0xE0020, 0xE007F))
+# ASCII class boundaries shifted by multiples of 2^8 / 2^16 / ...: an implementation that truncates the wint_t
+# (to char, to 16 bits, to a signed type) classifies these like their ASCII alias
+_EDGES = [0, 8, 9, 10, 13, 14, 31, 32, 33, 47, 48, 57, 58, 64, 65, 70, 71, 90, 91, 96, 97, 102, 103, 122, 123, 126, 127, 128]
+ALIASES = [e + k for e in _EDGES for k in (0x100, 0x1000, 0x10000, 0x100000, 0x1000000, 0x80000000, 0xFFFFFF00)]
 
 
 def gen_family(out, wide, tier, rng):
@@ -150,7 +175,9 @@ def gen_family(out, wide, tier, rng):
             for n in range(0, len(a) + 1):
                 out.append(f"{nm['memchr']} {L(a)} {ch} {n}")
             cc = ch % 256 if not wide else ch
-            if cc in a:      # the scan stops at the first match: a larger count is allowed (C11 7.24.5.1p2)
+            if cc in a and not wide:
+                # the scan stops at the first match: a larger count is allowed (C11 7.24.5.1p2).  Narrow only: ISO C has
+                # no such sentence for wmemchr, so a count beyond the array is outside the C domain there (review R-9)
                 out.append(f"{nm['memchr']} {L(a)} {ch} {len(a) + 2}")
         for n in range(0, len(a) + 1):
             for extra in (0, 2):
@@ -276,6 +303,12 @@ REGRESSION = [
     "strncmp 2 0 97 3 0 98 128 6", "strncmp 1 97 1 98 1", "memmove 3 1 2 3 1 0 2", "wmemmove 3 1 2 3 1 0 2",
     "strrchr 2 1 0 1", "strchr 1 0 0", "strspn 2 97 0 2 97 0", "memchr 1 0 128 1", "memset 1 201 -1 1",
     "isxdigit 103", "iswcntrl 31", "islower 122", "lldiv -7 2", "strlen 2 98 0",
+    # review round (REVIEW.md): inputs that exposed the second engineer's changes R-A .. R-F and the UB of a
+    # `ptr + n` rewrite of memchr
+    "strncmp 1 0 3 97 0 128 4294967296", "wcsncmp 2 98 0 1 0 4294967296",
+    "strncat 3 0 201 202 2 97 0 18446744073709551615", "wcsncat 3 0 201 202 2 97 0 18446744073709551615",
+    "wcsncpy_null 2", "strcpy_null 1", "iswspace 8232", "iswspace 12288", "strrchr_null 0", "wcsrchr_null 97",
+    "labs 2147483648", "memchr 1 0 0 9223372036854775808", "memmove2 3 201 202 203 2 97 98 2 0", "wmemmove2 3 201 202 203 2 97 98 2 1",
 ]
 
 
@@ -288,6 +321,7 @@ def gen(tier, rng):
             out.append(f"{f} {c}")
     wvals = list(range(0, 0x300 if quick else 0x3000)) + list(range(0xD7F0, 0xE010)) + list(range(0xFFF0, 0x10010)) + \
         [0x10FFFF, 0x110000, 0x7FFFFFFF, 0x80000000, 0xFFFFFFFE, 0xFFFFFFFF]
+    wvals += UNICODE_CANDIDATES + ALIASES
     wvals += [rng.randint(0, 2**32 - 1) for _ in range(200 if quick else 20000)]
     for f in WCLASS:
         for c in wvals:
